@@ -6,6 +6,8 @@ package harness
 import (
 	"fmt"
 
+	"github.com/gammazero/nexus/v3/wamp"
+
 	"pgregory.net/rapid"
 )
 
@@ -17,7 +19,12 @@ func rpcOracle(prop string) func(c *Case) Oracle {
 			// the broker model judges the pub/sub traffic of the slow-caller scenario
 			return []Part{newBrokerPart(w), d}
 		})
+		o.stopModelAtPar = true
+		o.onQuiesced = func(e *Engine) *Violation { return raceJudge(e, c, &o.st) }
 		o.finishStats = func(st *CaseStats) {
+			if st.Labels["race_tail_judged"] > 0 {
+				st.NonTrivial = true
+			}
 			for _, c := range d.calls {
 				if c.events > d.maxEvents {
 					d.maxEvents = c.events
@@ -26,13 +33,14 @@ func rpcOracle(prop string) func(c *Case) Oracle {
 					d.maxEventsTimeout = c.events
 				}
 			}
+			race := st.Labels["race_tail_judged"] > 0
 			switch prop {
 			case "C02":
-				st.NonTrivial = d.maxEvents >= 2
+				st.NonTrivial = d.maxEvents >= 2 || race
 			case "C03":
 				st.NonTrivial = st.Labels["call_multi_candidate"] > 0
 			case "C13":
-				st.NonTrivial = d.maxEventsTimeout >= 2
+				st.NonTrivial = d.maxEventsTimeout >= 2 || race
 			}
 		}
 		return o
@@ -579,6 +587,10 @@ func genRPC(t *rapid.T, profile string) *Case {
 	if profile == "C03" && pct(t, 12, "rotation") {
 		appendRotation(t, c)
 	}
+	if (profile == "C02" || profile == "C13") && pct(t, 22, "racetail") {
+		appendRaceTail(t, c)
+		return c
+	}
 	if profile == "C02" && pct(t, 12, "slowcaller") {
 		appendSlowCaller(t, c)
 	} else if profile == "C02" && pct(t, 8, "blockedcallee") {
@@ -698,4 +710,182 @@ func appendRotation(t *rapid.T, c *Case) {
 	for i := 0; i < 1+uni(t, k+1, "rotafter"); i++ {
 		c.Ops = append(c.Ops, Op{K: "call", S: caller, URI: "verif.rr", Args: []V{VInt(100 + i)}})
 	}
+}
+
+
+// appendRaceTail adds a caller, a callee and a closing batch of operations that
+// are issued concurrently around one pending call - cancels in every mode, final
+// and progressive yields, an invocation error, the callee's departure - each at
+// a delay drawn from the coincidence set of the call's timeout, so that they
+// race with each other and with the router's timer for real. The order in which
+// the router processes them is not determined: the batch is judged by what must
+// hold under every interleaving (raceJudge).
+func appendRaceTail(t *rapid.T, c *Case) {
+	n := len(c.Sess)
+	caller, callee := n, n+1
+	calleeRoles := fullRoles()
+	canInterrupt := true
+	if pct(t, 25, "nocancel") {
+		canInterrupt = false
+		var fs []string
+		for _, f := range calleeRoles["callee"] {
+			if f != "call_canceling" && f != "progressive_call_results" {
+				fs = append(fs, f)
+			}
+		}
+		calleeRoles["callee"] = fs
+	}
+	c.Sess = append(c.Sess, SessCfg{Realm: c.Sess[0].Realm, Roles: fullRoles()}, SessCfg{Realm: c.Sess[0].Realm, Roles: calleeRoles})
+	call := Op{K: "call", S: caller, URI: "verif.race", Args: []V{VInt(1)}}
+	var T int64
+	if pct(t, 70, "racetimeout") {
+		T = pick(t, []int64{1, 50}, "raceT")
+		call.Opts = append(call.Opts, KV{"timeout", VI64(T)})
+	}
+	if pct(t, 50, "racerp") {
+		call.Opts = append(call.Opts, KV{"receive_progress", VBool(true)})
+	}
+	c.Ops = append(c.Ops, Op{K: "register", S: callee, URI: "verif.race"}, call)
+	delay := func() int64 {
+		if T > 0 {
+			return pick(t, []int64{0, T*1e6 - 1, T * 1e6, T * 1e6, T * 1e6, T*1e6 + 1}, "racedelay")
+		}
+		return pick(t, []int64{0, 0, 1, 1e6}, "racedelay0")
+	}
+	finalDue := T > 0
+	killCancel := false
+	k := 2 + uni(t, 3, "racen")
+	for i := 0; i < k; i++ {
+		var op Op
+		switch uni(t, 7, "racek") {
+		case 0, 1:
+			mode := pick(t, []string{"", "skip", "kill", "killnowait", "kill"}, "racemode")
+			op = Op{K: "cancel", S: caller, Ref: "call:-1:-1", Mode: mode}
+			if mode == "kill" && canInterrupt {
+				killCancel = true
+			} else {
+				finalDue = true
+			}
+		case 2, 3:
+			op = Op{K: "yield", S: callee, Ref: "inv:-1:-1", Args: []V{VStr("done")}}
+			finalDue = true
+		case 4:
+			op = Op{K: "yield", S: callee, Ref: "inv:-1:-1", Args: []V{VStr("progress")}, Opts: []KV{{"progress", VBool(true)}}}
+		case 5:
+			op = Op{K: "error", S: callee, Ref: "inv:-1:-1", Err: "app.error"}
+			finalDue = true
+		default:
+			op = Op{K: pick(t, []string{"goodbye", "drop"}, "raceleave"), S: callee}
+			finalDue = true
+		}
+		op.Par = true
+		op.Ns = delay()
+		c.Ops = append(c.Ops, op)
+	}
+	if killCancel && T > 0 {
+		// a kill-mode cancel that wins the race stops the router's timer: the timeout alone
+		// no longer guarantees a final reply
+		due := false
+		for _, op := range c.Ops[len(c.Ops)-k:] {
+			if (op.K == "yield" && len(op.Opts) == 0) || op.K == "error" || op.K == "goodbye" || op.K == "drop" || (op.K == "cancel" && (op.Mode != "kill" || !canInterrupt)) {
+				due = true
+			}
+		}
+		finalDue = due
+	}
+	if c.P == nil {
+		c.P = map[string]V{}
+	}
+	c.P["race_caller"], c.P["race_callee"], c.P["race_final_due"] = VInt(caller), VInt(callee), VBool(finalDue)
+}
+
+// raceJudge: what must hold for the call of the race tail under every
+// interleaving of the concurrent batch (C02 clauses a-d, C13's "never after
+// the call already completed").
+func raceJudge(e *Engine, c *Case, st *CaseStats) *Violation {
+	cv, ok := c.P["race_caller"]
+	if !ok {
+		return nil
+	}
+	caller, callee := cv.Go().(int), c.P["race_callee"].Go().(int)
+	due, _ := c.P["race_final_due"].Go().(bool)
+	if caller >= len(e.Sess) || callee >= len(e.Sess) || len(e.Sess[caller].Calls) == 0 {
+		return nil
+	}
+	x, y := e.Sess[caller], e.Sess[callee]
+	req := x.Calls[len(x.Calls)-1].ID
+	issued := map[wamp.ID]bool{}
+	for _, r := range x.Calls {
+		issued[r.ID] = true
+	}
+	finals, afterFinal := 0, ""
+	for _, m := range x.All {
+		switch r := m.(type) {
+		case *wamp.Result:
+			if !issued[r.Request] {
+				return &Violation{Prop: c.Prop, Reason: fmt.Sprintf("concurrent batch: the caller received %s for a request id it never issued", MsgString(m))}
+			}
+			if r.Request != req {
+				continue
+			}
+			if finals > 0 {
+				afterFinal = MsgString(m)
+			}
+			if p, _ := r.Details["progress"].(bool); !p {
+				finals++
+			}
+		case *wamp.Error:
+			if r.Type != wamp.CALL {
+				continue
+			}
+			if !issued[r.Request] {
+				return &Violation{Prop: c.Prop, Reason: fmt.Sprintf("concurrent batch: the caller received %s for a request id it never issued", MsgString(m))}
+			}
+			if r.Request != req {
+				continue
+			}
+			if finals > 0 {
+				afterFinal = MsgString(m)
+			}
+			finals++
+		}
+	}
+	inbox := recvString(x.All)
+	if finals > 1 {
+		return &Violation{Prop: c.Prop, Reason: fmt.Sprintf("concurrent batch around call req=%d: the caller received %d final replies: %s", req, finals, inbox)}
+	}
+	if afterFinal != "" {
+		return &Violation{Prop: c.Prop, Reason: fmt.Sprintf("concurrent batch around call req=%d: %s arrived after the final reply: %s", req, afterFinal, inbox)}
+	}
+	if due && finals == 0 && !x.Dropped {
+		return &Violation{Prop: c.Prop, Reason: fmt.Sprintf("concurrent batch around call req=%d: a final reply was due under every interleaving (timeout, final answer, cancel or departure of the callee) but after 24 virtual hours the caller has none: %s", req, inbox)}
+	}
+	// the callee: at most one INTERRUPT for the cancellation or timeout of the invocation
+	// (none if it cannot be interrupted), plus one for each progressive result it sent for
+	// a call that was already gone (the router's way of stopping such a stream)
+	progYields := 0
+	for _, op := range c.Ops {
+		if op.Par && op.K == "yield" && op.S == callee {
+			if _, prog := optGet(op.Opts, "progress"); prog {
+				progYields++
+			}
+		}
+	}
+	nint := map[wamp.ID]int{}
+	for _, m := range y.All {
+		if i, ok := m.(*wamp.Interrupt); ok {
+			nint[i.Request]++
+			if progYields == 0 && !hasFeature(&y.Cfg, "callee", "call_canceling") {
+				return &Violation{Prop: c.Prop, Reason: "concurrent batch: INTERRUPT sent to a callee that did not announce call_canceling: " + MsgString(m)}
+			}
+			if nint[i.Request] > 1+progYields {
+				return &Violation{Prop: c.Prop, Reason: fmt.Sprintf("concurrent batch: the callee received %d INTERRUPTs for invocation %d (one cancellation and %d progressive results sent)", nint[i.Request], i.Request, progYields)}
+			}
+		}
+	}
+	st.Label("race_tail_judged")
+	if finals == 1 {
+		st.Label("race_tail_one_final_reply")
+	}
+	return nil
 }
